@@ -374,6 +374,8 @@ impl ActorProperties {
         #[cfg(feature = "verif")]
         crate::verif::point("wait.created");
         if self.get_status() != ActorStatus::Stopped {
+            #[cfg(feature = "verif")]
+            crate::verif::point("wait.checked");
             notified.await;
         }
     }
